@@ -134,6 +134,26 @@ pub struct RPayload {
     pub kind: &'static str,
     pub off: usize,
     pub len: usize,
+    /// ether type / ip number announced for the payload (where it has one)
+    pub num: Option<u16>,
+    /// incomplete flag of the link / network layer payload (lax mode)
+    pub incomplete: Option<bool>,
+    pub src: Option<Src>,
+    pub fragmented: Option<bool>,
+}
+
+impl RPayload {
+    pub fn new(kind: &'static str, off: usize, len: usize) -> RPayload {
+        RPayload {
+            kind,
+            off,
+            len,
+            num: None,
+            incomplete: None,
+            src: None,
+            fragmented: None,
+        }
+    }
 }
 
 // ----------------------------------------------------------------------------------------------
@@ -279,11 +299,10 @@ impl<'a> Dec<'a> {
         l.pu("~pay_off", o + 14);
         l.pu("~pay_len", e - (o + 14));
         self.layers.push(l);
-        self.payload = RPayload {
-            kind: "ether",
-            off: o + 14,
-            len: e - (o + 14),
-        };
+        self.payload = RPayload::new("ether", o + 14, e - (o + 14));
+        self.payload.num = Some(t);
+        self.payload.src = Some(Src::Slice);
+        self.payload.incomplete = Some(false);
         self.ether_type(t, o + 14);
     }
 
@@ -347,11 +366,10 @@ impl<'a> Dec<'a> {
         l.pu("~pay_off", o + 16);
         l.pu("~pay_len", e - (o + 16));
         self.layers.push(l);
-        self.payload = RPayload {
-            kind: "sll",
-            off: o + 16,
-            len: e - (o + 16),
-        };
+        self.payload = RPayload::new("sll", o + 16, e - (o + 16));
+        self.payload.num = Some(proto);
+        self.payload.src = Some(Src::Slice);
+        self.payload.incomplete = Some(false);
         if pkind == 3 && !LINUX_NONSTANDARD.contains(&proto) {
             self.payload.kind = "ether";
             self.ether_type(proto, o + 16);
@@ -382,11 +400,14 @@ impl<'a> Dec<'a> {
                     self.layers.push(l);
                     self.link_exts += 1;
                     o += 4;
-                    self.payload = RPayload {
-                        kind: "ether",
-                        off: o,
-                        len: e - o,
-                    };
+                    let (inc, psrc) = (self.payload.incomplete, self.payload.src);
+                    self.payload = RPayload::new("ether", o, e - o);
+                    self.payload.num = Some(t);
+                    // a VLAN header has no length field of its own: its payload inherits the
+                    // length source of what encloses it and is never "incomplete" by itself
+                    self.payload.src = psrc;
+                    let _ = inc;
+                    self.payload.incomplete = Some(false);
                 }
                 ety::MACSEC => {
                     if self.link_exts >= 3 {
@@ -535,10 +556,15 @@ impl<'a> Dec<'a> {
         if pay_src == Src::MacsecShort {
             self.limits.push((Src::MacsecShort, o + h + pay_len));
         }
-        self.payload = RPayload {
-            kind: if unmod { "ether" } else { "macsec_mod" },
-            off: o + h,
-            len: pay_len,
+        let outer_src = self.payload.src;
+        self.payload = RPayload::new(if unmod { "ether" } else { "macsec_mod" }, o + h, pay_len);
+        self.payload.num = next;
+        self.payload.incomplete = Some(incomplete);
+        self.payload.src = if pay_src == Src::MacsecShort {
+            Some(Src::MacsecShort)
+        } else {
+            // no (usable) short length: whatever limited the enclosing data
+            outer_src
         };
         next.map(|t| (t, o + h))
     }
@@ -578,11 +604,7 @@ impl<'a> Dec<'a> {
         l.blob("tpa", &b[p..p + pl]);
         l.pu("~total_len", n);
         self.layers.push(l);
-        self.payload = RPayload {
-            kind: "empty",
-            off: o + n,
-            len: 0,
-        };
+        self.payload = RPayload::new("empty", o + n, 0);
     }
 
     fn ip(&mut self, o: usize, how: Start) {
@@ -780,11 +802,11 @@ impl<'a> Dec<'a> {
                 l.pb("~incomplete", incomplete);
             }
         }
-        self.payload = RPayload {
-            kind: "ip",
-            off: po,
-            len: pe - po,
-        };
+        self.payload = RPayload::new("ip", po, pe - po);
+        self.payload.num = Some(num as u16);
+        self.payload.src = Some(pay_src);
+        self.payload.incomplete = Some(incomplete);
+        self.payload.fragmented = Some(fragmented);
         if ext_fault || fragmented {
             return;
         }
@@ -925,11 +947,11 @@ impl<'a> Dec<'a> {
                 l.pb("~incomplete", incomplete);
             }
         }
-        self.payload = RPayload {
-            kind: "ip",
-            off: po,
-            len: pe - po,
-        };
+        self.payload = RPayload::new("ip", po, pe - po);
+        self.payload.num = Some(num as u16);
+        self.payload.src = Some(pay_src);
+        self.payload.incomplete = Some(incomplete);
+        self.payload.fragmented = Some(fragmented);
         if ext_fault || fragmented {
             return;
         }
@@ -1135,11 +1157,9 @@ impl<'a> Dec<'a> {
         l.pu("~pay_off", o + 8);
         l.pu("~pay_len", pay_end - (o + 8));
         self.layers.push(l);
-        self.payload = RPayload {
-            kind: "udp",
-            off: o + 8,
-            len: pay_end - (o + 8),
-        };
+        let inc = self.payload.incomplete;
+        self.payload = RPayload::new("udp", o + 8, pay_end - (o + 8));
+        self.payload.incomplete = inc;
     }
 
     fn tcp(&mut self, o: usize) {
@@ -1202,11 +1222,9 @@ impl<'a> Dec<'a> {
         l.pu("~pay_off", o + hl);
         l.pu("~pay_len", e - (o + hl));
         self.layers.push(l);
-        self.payload = RPayload {
-            kind: "tcp",
-            off: o + hl,
-            len: e - (o + hl),
-        };
+        let inc = self.payload.incomplete;
+        self.payload = RPayload::new("tcp", o + hl, e - (o + hl));
+        self.payload.incomplete = inc;
     }
 
     fn icmp4(&mut self, o: usize) {
@@ -1250,16 +1268,14 @@ impl<'a> Dec<'a> {
         l.p("ty", ty);
         l.p("code", code);
         l.p("csum", be16(b, o + 2));
-        l.blob("b58", &b[o + 4..o + 8]);
+        l.blob("~b58", &b[o + 4..o + 8]);
         l.pu("~slice_len", a);
         l.pu("~pay_off", o + hl);
         l.pu("~pay_len", a - hl);
         self.layers.push(l);
-        self.payload = RPayload {
-            kind: "icmpv4",
-            off: o + hl,
-            len: a - hl,
-        };
+        let inc = self.payload.incomplete;
+        self.payload = RPayload::new("icmpv4", o + hl, a - hl);
+        self.payload.incomplete = inc;
     }
 
     fn icmp6(&mut self, o: usize) {
@@ -1275,16 +1291,14 @@ impl<'a> Dec<'a> {
         l.p("ty", b[o]);
         l.p("code", b[o + 1]);
         l.p("csum", be16(b, o + 2));
-        l.blob("b58", &b[o + 4..o + 8]);
+        l.blob("~b58", &b[o + 4..o + 8]);
         l.pu("~slice_len", a);
         l.pu("~pay_off", o + 8);
         l.pu("~pay_len", a - 8);
         self.layers.push(l);
-        self.payload = RPayload {
-            kind: "icmpv6",
-            off: o + 8,
-            len: a - 8,
-        };
+        let inc = self.payload.incomplete;
+        self.payload = RPayload::new("icmpv6", o + 8, a - 8);
+        self.payload.incomplete = inc;
     }
 }
 
@@ -1298,11 +1312,7 @@ pub fn decode(bytes: &[u8], start: Start, mode: Mode, ext_mode: ExtMode) -> RDec
         limits: vec![(Src::Slice, bytes.len())],
         link_exts: 0,
         fault: None,
-        payload: RPayload {
-            kind: "none",
-            off: 0,
-            len: bytes.len(),
-        },
+        payload: RPayload::new("none", 0, bytes.len()),
     };
     match start {
         Start::Eth => d.eth(0),
@@ -1313,11 +1323,10 @@ pub fn decode(bytes: &[u8], start: Start, mode: Mode, ext_mode: ExtMode) -> RDec
             l.pu("~pay_off", 0);
             l.pu("~pay_len", bytes.len());
             d.layers.push(l);
-            d.payload = RPayload {
-                kind: "ether",
-                off: 0,
-                len: bytes.len(),
-            };
+            d.payload = RPayload::new("ether", 0, bytes.len());
+            d.payload.num = Some(t);
+            d.payload.src = Some(Src::Slice);
+            d.payload.incomplete = Some(false);
             d.ether_type(t, 0);
         }
         Start::Ip => d.ip(0, Start::Ip),
